@@ -13,7 +13,9 @@
      builtin/system.go + ProcessForwardMsg   [deliver], phase PToBack: wrong service type =>
                                              nothing; else the handler result wrapped in
                                              msgs.Response{SessionId,ClientReqId,Data|Error}
-     forwarder.go relay callback             [deliver], phase PToFront: checks SessionId and
+     forwarder.go relay callback             [deliver], phase PToFront: the closure holds the session
+                                             OBJECT of the requester ([f_c]); it checks the reply's SessionId
+                                             against that object's id ([f_sid]) and
                                              ClientReqId, writes the response
      actorex/service checkExpired            [advance]: every waiting callback gets ErrTimeout
      session.go ResponseMID                  [write]: refuses id 0 and closed sessions
@@ -49,7 +51,9 @@ Inductive payload := PReply (inst tag : Z) | PNone | POther.
 Inductive resp := Resp (mid : Z) (err : bool) (p : payload).
 
 Inductive op :=
-| OConnect (c : Z) (busy : bool)      (* busy: the front's goroutine is occupied meanwhile *)
+| OConnect (c : Z) (busy : bool) (sid : Z)
+    (* c: the connection (an identity); sid: the NUMERIC session id the front's allocator hands
+       it (ids wrap and are reused); busy: the front's goroutine is occupied meanwhile *)
 | OReq (c mid : Z) (r : route) (tag : Z)
 | ONotify (c : Z) (r : route) (tag : Z)
 | OAdvance                            (* virtual clock + 31 s, expiry scan *)
@@ -82,16 +86,17 @@ Definition invoked (m : meth) (isreq : bool) : bool :=
   | MNoMethod | MNoGroup | MBadPayload => false
   end.
 
-Record conn := mkConn { c_open : bool; c_key : Z }.
+Record conn := mkConn { c_open : bool; c_key : Z; c_sid : Z }.
 
 Inductive phase :=
 | PToBack                                   (* sys.call / sys.notify in flight to the back-end *)
 | PSilent                                   (* the back-end will never answer *)
-| PToFront (c mid : Z) (e : bool) (p : payload)  (* msgs.Response in flight to the front *)
+| PToFront (sid mid : Z) (e : bool) (p : payload) (* msgs.Response{SessionId,ClientReqId,..} in flight to the front *)
 | PDone.
 
 Record freq := mkF {
-  f_c : Z; f_mid : Z; f_tag : Z;            (* connection, client request id, ghost tag *)
+  f_c : Z; f_sid : Z; f_mid : Z; f_tag : Z; (* connection (the captured session OBJECT), its numeric id
+                                               as stamped on the envelope, client request id, ghost tag *)
   f_i : Z; f_ty : Z; f_m : meth;            (* target instance, routed type, behaviour *)
   f_phase : phase;
   f_wait : bool                              (* the front still holds the relay callback *)
@@ -112,6 +117,14 @@ Definition is_open (cs : alist conn) (c : Z) : bool :=
 Definition key_of (cs : alist conn) (c : Z) : Z :=
   match aget c cs with Some cn => c_key cn | None => 0 end.
 
+Definition sid_of (cs : alist conn) (c : Z) : Z :=
+  match aget c cs with Some cn => c_sid cn | None => 0 end.
+
+(* a LIVE connection holds this numeric id (the allocator never hands out such an id: that is
+   C05's subject; ids of CLOSED connections are reused freely) *)
+Definition sid_live (cs : alist conn) (sid : Z) : bool :=
+  existsb (fun kv => c_open (snd kv) && Z.eqb (c_sid (snd kv)) sid) cs.
+
 Section Routing.
   (* the registered route functions: service type -> routing key of the session -> name of an
      instance (which may not exist); and the type of each existing instance *)
@@ -130,14 +143,18 @@ Section Routing.
   (* connection bookkeeping is a function of the client operations alone *)
   Definition conn_step (cs : alist conn) (o : op) : alist conn :=
     match o with
-    | OConnect c _ => match aget c cs with None => aset c (mkConn true 0) cs | Some _ => cs end
+    | OConnect c _ sid =>
+        match aget c cs with
+        | None => if sid_live cs sid then cs else aset c (mkConn true 0 sid) cs
+        | Some _ => cs
+        end
     | OClose c =>
         match aget c cs with
-        | Some cn => if c_open cn then aset c (mkConn false (c_key cn)) cs else cs
+        | Some cn => if c_open cn then aset c (mkConn false (c_key cn) (c_sid cn)) cs else cs
         | None => cs
         end
     | OReq c _ (RT ty (MSetKey v)) _ | ONotify c (RT ty (MSetKey v)) _ =>
-        if Z.eqb ty front_type && is_open cs c then aset c (mkConn true v) cs else cs
+        if Z.eqb ty front_type && is_open cs c then aset c (mkConn true v (sid_of cs c)) cs else cs
     | _ => cs
     end.
 
@@ -167,7 +184,7 @@ Section Routing.
       | None => write s c tag mid true PNone
       | Some i =>
           mkSt (conns s)
-               (fwd s ++ [mkF c mid tag i ty m PToBack (negb (Z.eqb mid 0))])
+               (fwd s ++ [mkF c (sid_of (conns s) c) mid tag i ty m PToBack (negb (Z.eqb mid 0))])
                (out s) (hlog s)
       end.
 
@@ -175,7 +192,7 @@ Section Routing.
     firstn k l ++ match skipn k l with [] => [] | _ :: r => f :: r end.
 
   Definition with_phase (f : freq) (ph : phase) (w : bool) : freq :=
-    mkF (f_c f) (f_mid f) (f_tag f) (f_i f) (f_ty f) (f_m f) ph w.
+    mkF (f_c f) (f_sid f) (f_mid f) (f_tag f) (f_i f) (f_ty f) (f_m f) ph w.
 
   (* one hop of the message of slot k *)
   Definition deliver (s : st) (k : nat) : st :=
@@ -190,8 +207,8 @@ Section Routing.
               let ph :=
                 if isreq then
                   match completes (f_m f) with
-                  | CReply => PToFront (f_c f) (f_mid f) false (PReply (f_i f) (f_tag f))
-                  | CErr => PToFront (f_c f) (f_mid f) true PNone
+                  | CReply => PToFront (f_sid f) (f_mid f) false (PReply (f_i f) (f_tag f))
+                  | CErr => PToFront (f_sid f) (f_mid f) true PNone
                   | CSilent => PSilent
                   end
                 else PDone in
@@ -200,7 +217,7 @@ Section Routing.
               mkSt (conns s) (set_nth k (with_phase f PSilent (f_wait f)) (fwd s)) (out s) (hlog s)
         | PToFront c' mid' e p =>
             let s1 := mkSt (conns s) (set_nth k (with_phase f PDone false) (fwd s)) (out s) (hlog s) in
-            if f_wait f && Z.eqb c' (f_c f) && Z.eqb mid' (f_mid f)
+            if f_wait f && Z.eqb c' (f_sid f) && Z.eqb mid' (f_mid f)
             then write s1 (f_c f) (f_tag f) (f_mid f) e (if e then PNone else p)
             else s1
         | PSilent | PDone => s
@@ -221,7 +238,7 @@ Section Routing.
   Definition op_step (s : st) (o : op) : st :=
     let s1 := mkSt (conn_step (conns s) o) (fwd s) (out s) (hlog s) in
     match o with
-    | OConnect _ _ | OClose _ => s1
+    | OConnect _ _ _ | OClose _ => s1
     | OReq c mid r tag => if is_open (conns s) c then request s1 c mid r tag else s
     | ONotify c r tag => if is_open (conns s) c then request s1 c 0 r tag else s
     | OAdvance => advance s
